@@ -58,7 +58,7 @@ def gen(repo):
             r"length\s*>\s*constants::DNS_MAX_LABEL_SIZE",
             r"checkBounds\s*\(\s*offset\s*\+\s*1\s*,\s*length\s*,\s*size\s*\)",
             r"totalLength\s*\+=\s*length\s*\+\s*1",
-            r"totalLength\s*>\s*constants::DNS_MAX_NAME_SIZE"]
+            r"totalLength\s*(?:\+\s*1\s*)?>\s*constants::DNS_MAX_NAME_SIZE"]
     pos = 0
     for pat in need:
         m = re.compile(pat).search(dn, pos)
@@ -66,6 +66,18 @@ def gen(repo):
             raise TranslateError("decodeNameWithLoopDetection: expected `%s` (in this order) not found" % pat)
         pos = m.end()
     # a name that runs off the end of the message without a terminator: is the fall-through of the loop an error?
+    counts_root = bool(re.search(r"totalLength\s*\+\s*1\s*>\s*constants::DNS_MAX_NAME_SIZE", dn))
+    # optional bound on the compression pointers followed per name: `if (++jumps > constants::DNS_MAX_COMPRESSION_JUMPS) throw`
+    # between the loop test and the insertion into the visited set
+    mj = re.search(r"visitedPointers\.find[^;]*\)\s*\{[^{}]*\}\s*if\s*\(\s*\+\+jumps\s*>\s*constants::(\w+)\s*\)\s*\{\s*throw\s+DnsParseException[^;]*;\s*\}\s*visitedPointers\.insert", dn, re.S)
+    if mj:
+        if not re.search(r"std::size_t\s+jumps\s*=\s*0\s*;", dn) or len(re.findall(r"\bjumps\b", dn)) != 2:
+            raise TranslateError("decodeNameWithLoopDetection: `jumps` is not a plain per-call counter")
+        max_jumps = _const(typ, mj.group(1))
+    else:
+        if re.search(r"\bjumps\b", dn):
+            raise TranslateError("decodeNameWithLoopDetection: unrecognised use of `jumps`")
+        max_jumps = None
     wm = re.search(r"while\s*\(\s*offset\s*<\s*size\s*\)\s*\{", dn)
     wend = cxxscan.match_brace(dn, wm.end() - 1)
     if wend < pos:
@@ -74,6 +86,16 @@ def gen(repo):
     unterminated_is_error = bool(re.search(r"throw\s+DnsParseException", tail))
     if not unterminated_is_error and not re.search(r"return\s+jumped\s*\?\s*originalOffset\s*:\s*offset\s*;", tail):
         raise TranslateError("decodeNameWithLoopDetection: unrecognised epilogue")
+
+    # --- decodeNameFromRdata: the direct-pointer branch uses the same 14-bit mask and the same pointer test
+    dr = cxxscan.function_body(msg, "decodeNameFromRdata")
+    for pat in (r"\(\s*firstByte\s*&\s*constants::DNS_COMPRESSION_MASK\s*\)\s*==\s*constants::DNS_COMPRESSION_MASK",
+                r"readUint16\s*\(\s*rdata\s*,\s*rdataOffset\s*\)\s*&\s*constants::DNS_COMPRESSION_POINTER_MASK",
+                r"decodeName\s*\(\s*messageData\s*,\s*pointer\s*,\s*messageSize\s*,\s*name\s*\)\s*;\s*return\s+rdataOffset\s*\+\s*2\s*;",
+                r"std::size_t\s+absoluteOffset\s*=\s*rdataStart\s*\+\s*rdataOffset\s*;",
+                r"decodeName\s*\(\s*messageData\s*,\s*absoluteOffset\s*,\s*messageSize\s*,\s*name\s*\)"):
+        if not re.search(pat, dr):
+            raise TranslateError("decodeNameFromRdata: expected `%s`" % pat)
 
     # --- checkBounds
     cb = cxxscan.function_body(msg, "checkBounds")
@@ -148,6 +170,41 @@ def gen(repo):
     if not m:
         raise TranslateError("ExpiringCache purge: expiry comparison not recognised")
     purge_incl = m.group(1) == "<="
+    # lock skeleton: every public method touches `_cache` only inside the scope of a guard over `_mutex`
+    locked = []
+    for meth in ("set", "get", "remove", "size"):
+        body = cxxscan.function_body(exp, meth)
+        lk = re.search(r"std::(?:lock_guard|unique_lock)\s*<\s*std::mutex\s*>\s+lock\s*\(\s*_mutex\s*\)\s*;", body)
+        if not lk:
+            raise TranslateError("ExpiringCache::%s: no lock_guard/unique_lock over _mutex" % meth)
+        # innermost block that contains the guard = its scope
+        depth = 0
+        start = 0
+        stack = []
+        for i, ch in enumerate(body[:lk.start()]):
+            if ch == "{":
+                stack.append(i)
+            elif ch == "}":
+                stack.pop()
+        scope_end = cxxscan.match_brace(body, stack[-1]) if stack else len(body)
+        for mm in re.finditer(r"\b_cache\b", body):
+            if not (lk.end() <= mm.start() < scope_end):
+                raise TranslateError("ExpiringCache::%s: `_cache` is used outside the scope of the lock over _mutex" % meth)
+        locked.append(meth)
+    pt = cxxscan.function_body(exp, "startPurgeThread")
+    lk = re.search(r"std::unique_lock\s*<\s*std::mutex\s*>\s+lock\s*\(\s*_mutex\s*\)\s*;", pt)
+    if not lk or any(mm.start() < lk.end() for mm in re.finditer(r"\b_cache\b", pt)):
+        raise TranslateError("ExpiringCache purge thread: `_cache` is used before the unique_lock over _mutex")
+    stack = []
+    for i, ch in enumerate(pt[:lk.start()]):
+        if ch == "{":
+            stack.append(i)
+        elif ch == "}":
+            stack.pop()
+    scope_end = cxxscan.match_brace(pt, stack[-1])
+    if any(not (lk.end() <= mm.start() < scope_end) for mm in re.finditer(r"\b_cache\b", pt)):
+        raise TranslateError("ExpiringCache purge thread: `_cache` is used outside the scope of the lock over _mutex")
+    locked.append("purge")
     ec_default = cxxscan.find_int(r"ExpiringCache\(\)\s*:\s*_ttl\(std::chrono::seconds\((\w+)\)\)", exp, "ExpiringCache default ttl")
 
     # --- DnsCache
@@ -170,8 +227,17 @@ def gen(repo):
     if not re.search(r"return\s+std::min\s*\(\s*record\.minimum\s*,\s*record\.ttl\s*\)", cnt):
         raise TranslateError("calculateNegativeTtl: min(SOA.minimum, SOA.ttl) not found")
     fq = cxxscan.function_body(typ, "fromQuestion")
-    if not re.search(r"std::transform\s*\([^;]*::tolower\s*\)", fq):
-        raise TranslateError("DnsCacheKey::fromQuestion: lower-casing not found")
+    tr = re.search(r"std::transform\s*\(\s*key\.qname\.begin\(\)\s*,\s*key\.qname\.end\(\)\s*,\s*key\.qname\.begin\(\)\s*,(.*?)\)\s*;\s*key\.qtype", fq, re.S)
+    if not tr:
+        raise TranslateError("DnsCacheKey::fromQuestion: std::transform over key.qname not found")
+    fn = re.sub(r"\s+", " ", tr.group(1)).strip()
+    if re.fullmatch(r"\[\]\s*\(\s*(?:unsigned\s+)?char\s+c\s*\)\s*\{\s*return\s*\(\s*c\s*>=\s*'A'\s*&&\s*c\s*<=\s*'Z'\s*\)\s*\?\s*static_cast<\s*char\s*>\s*\(\s*c\s*-\s*'A'\s*\+\s*'a'\s*\)\s*:\s*c\s*;\s*\}", fn):
+        lower_ascii_only = True          # folds A-Z only: no locale, no undefined behaviour
+    elif fn in ("::tolower", "tolower") or re.fullmatch(
+            r"\[\]\s*\(\s*unsigned\s+char\s+c\s*\)\s*(?:->\s*[\w:<> ]+\s*)?\{\s*return\s+(?:static_cast<\s*\w+\s*>\s*\(\s*)?(?:std)?::tolower\s*\(\s*c\s*\)\s*\)?\s*;\s*\}", fn):
+        lower_ascii_only = False         # <cctype> tolower: equals the ASCII fold in the "C" locale only
+    else:
+        raise TranslateError("DnsCacheKey::fromQuestion: unrecognised lower-casing function `%s`" % fn[:120])
 
     # --- DnsTransport::processResponse: everything of the parser is caught; the failed query is keyed by the first two bytes
     pr = cxxscan.function_body(tsp, "processResponse")
@@ -196,6 +262,10 @@ def gen(repo):
     t += "/-- `constants::` of dns_types.hpp -/\n"
     t += "def headerSize : Nat := %d\ndef maxLabel : Nat := %d\ndef maxName : Nat := %d\n" % (header_size, max_label, max_name)
     t += "def compressionMask : Nat := %d\ndef pointerMask : Nat := %d\n" % (cmask, pmask)
+    t += "/-- the name-length test of the decoder is `totalLength + 1 > DNS_MAX_NAME_SIZE` (the root label is counted) rather than `totalLength > …` -/\n"
+    t += "def nameLimitCountsRoot : Bool := %s\n" % _lean_bool(counts_root)
+    t += "/-- `if (++jumps > DNS_MAX_COMPRESSION_JUMPS) throw` is present in the name loop; its constant (0 when absent) -/\n"
+    t += "def hasJumpCap : Bool := %s\ndef maxJumps : Nat := %d\n" % (_lean_bool(max_jumps is not None), max_jumps or 0)
     t += "/-- `enum class DnsType` / `DnsClass` (name, value) -/\n"
     t += "def types : List (String × Nat) := %s\n" % lean_str_nat_list(types)
     t += "def classes : List (String × Nat) := %s\n" % lean_str_nat_list(classes)
@@ -220,6 +290,10 @@ def gen(repo):
     t += "def getStrict : Bool := %s\n" % _lean_bool(get_strict)
     t += "/-- purge thread removes iff `expiration <= now` -/\n"
     t += "def purgeInclusive : Bool := %s\n" % _lean_bool(purge_incl)
+    t += "/-- `DnsCacheKey::fromQuestion` folds A-Z only (true) or calls <cctype> tolower, which does the same in the C locale only (false) -/\n"
+    t += "def lowerAsciiOnly : Bool := %s\n" % _lean_bool(lower_ascii_only)
+    t += "/-- ExpiringCache methods (and the purge sweep) whose every use of `_cache` lies inside the scope of a guard over `_mutex` -/\n"
+    t += "def cacheLockedMethods : List String := [%s]\n" % ", ".join('"%s"' % x for x in locked)
     t += "/-- `DnsCache::put` / `putNegative` drop the entry instead of caching when the TTL is 0 -/\n"
     t += "def zeroTtlNotCachedPut : Bool := %s\ndef zeroTtlNotCachedNeg : Bool := %s\n" % (_lean_bool(zero_put), _lean_bool(zero_neg))
     t += "/-- `processResponse`: a rejected message needs this many bytes for its query id `(data[0] << 8) | data[1]` to be extracted -/\n"
